@@ -507,9 +507,12 @@ class EndpointResponseHandlerGenerator:
             writer.write_line("case _:  # Default response")
             writer.indent()
             if default_response.content and strategy.return_type != "None":
+                # The default response stands in for the success response only: any other status code is an error
+                writer.write_line("if 200 <= response.status_code < 300:")
+                writer.indent()
                 self._write_strategy_based_return(writer, strategy, context)
-            else:
-                self._write_raise_by_status_range(writer, context, "Default error")
+                writer.dedent()
+            self._write_raise_by_status_range(writer, context, "Default error")
             writer.dedent()
         else:
             # Final catch-all
